@@ -1,6 +1,7 @@
 import DcVerif.Model.CausalGraph
 import DcVerif.Props.C08Gen
 import DcVerif.Spec.ShortestPath
+import DcVerif.Spec.ShortestPathFW
 import DcVerif.Lemmas.CausalGraph
 /-! # The storage half of the causal-graph model is the ultragraph model (add-only histories)
 
@@ -344,6 +345,25 @@ theorem c01store_gen_get_node (enc : CausalGraph.Node → Nat) (ops : List Causa
   rw [sim_contains h, h.index, nodes_build]
   unfold CausalGraph.contains
   cases c : (CausalGraph.build ops).indexMap.contains i <;> simp [mGet_encMap]
+
+/-- the two developments of "walk of total weight c" (C10's `FW.Walk`, C15's `Spec.ShortestPath.Walk`) are the same relation -/
+theorem walk_iff (w : Nat → Nat → Option Nat) (u v : Nat) (is : List Nat) (c : Nat) :
+    FW.Walk w u v is c ↔ Spec.ShortestPath.Walk w u v is c := by
+  constructor
+  · intro h
+    induction h with
+    | edge he => exact .edge he
+    | cons he _ ih => exact .cons he ih
+  · intro h
+    induction h with
+    | edge he => exact .edge he
+    | cons he _ ih => exact .cons he ih
+
+/-- hence a walk C10 speaks about (over `CausalGraph.weight`) is a walk of the graph the ultragraph model holds, with the same weight -/
+theorem c01store_walks (enc : CausalGraph.Node → Nat) (ops : List CausalGraph.Op) (u v : Nat) (is : List Nat) (c : Nat) :
+    FW.Walk (CausalGraph.weight (CausalGraph.build ops)) u v is c ↔
+      Spec.ShortestPath.Walk (Spec.ShortestPath.weights (Model.UGraph.abs (C08Gen.genRun Model.UGraph.init (ops.map (toU enc))).1)) u v is c := by
+  rw [walk_iff, c01store_weights enc ops]
 
 /-- non-vacuity: root, two nodes, an accepted edge, a refused duplicate and a refused edge to an absent node -/
 example :
